@@ -5,6 +5,7 @@ CONSTANTS
   HasHf = FALSE
   Absent0 <- AbsMid
   Admin = TRUE
+  TrackRep = FALSE
   AlwaysW = TRUE
   AlwaysPRs = TRUE
   Cmds = {}
